@@ -192,8 +192,12 @@ def gen_world(rng, n_chrom=None, max_genes=4, coding_p=0.7, bias='KRKRPMWDEFLC',
                     if rng.random() < sec_p and ncod > 6:
                         for _k in range(rng.choice([1, 1, 2])):
                             k = rng.randint(2, ncod - 2)
+                            p0 = cs + frame + 3 * k
+                            gpos = [tx2g(gene, tx, p0 + d) for d in range(3)]
+                            if abs(gpos[2] - gpos[0]) != 2:
+                                continue      # a Sec codon split by an exon junction is not generated
                             dna = dna[:3 * k] + 'TGA' + dna[3 * k + 3:]
-                            sec.append(cs + frame + 3 * k)
+                            sec.append(p0)
                     if not end_nf:
                         dna += rng.choice(['TAA', 'TAG', 'TGA'])
                     _write_into(chrom, gene, tx['exons'], cs + frame, dna)
